@@ -204,5 +204,5 @@ REQUIRED_STRATA = {"all": ["recover:recover", "recover:via_script", "recover:via
 
 PARTS = {
     "params": {"runner": runner_params, "replay": fuzzrun.replay_fuzz},
-    "recover": {"strategy": spec_recover, "check": check_recover, "examples": {"quick": 1600, "thorough": 30000}, "sample": view},
+    "recover": {"strategy": spec_recover, "check": check_recover, "examples": {"quick": 3200, "thorough": 30000}, "sample": view},
 }
